@@ -1,24 +1,242 @@
+// C30: Tendermint-family light clients (cosmos, okex, heimdall routers) need a two-thirds power quorum; deposits
+// need an EXISTENCE proof in the state committed by a header verified the same way.
+//
+// Everything is driven through the real native contracts (header_sync.SyncGenesisHeader / SyncBlockHeader,
+// cross_chain_manager.ImportOuterTransfer) on polyenv's native world, with synthetic chains signed by real keys.
+//
+//	part A  quorum function: every power vector in {1,2,3,10}^n, n=1..4, every signature pattern of the tier's
+//	        alphabet, one SyncBlockHeader from a genesis that trusts the set.
+//	part B  mc.BFS over sequences of header / deposit submissions in a universe of three validator sets.
+//	part C  deposit proof alphabet (legacy iavl+multistore and ics23 ops; existence, absence, mismatches) x header variants.
 package main
 
 import (
 	"fmt"
+	"os"
+	"runtime/debug"
+	"runtime/pprof"
+	"sort"
+	"strings"
+	"sync"
+	"time"
 
 	_ "github.com/polynetwork/poly/native/service"
-	"github.com/polynetwork/poly/native/service/header_sync/cosmos"
+	"github.com/polynetwork/poly/native/service/utils"
+	"verif.local/engine/ev"
+	"verif.local/engine/lib/hsenv"
+	"verif.local/engine/polyenv"
 )
 
-func main() {
-	A := &vset{id: "A", keys: []tmKey{tmKeyOf("ed", 1), tmKeyOf("ed", 2), tmKeyOf("secp", 3), tmKeyOf("ed", 4)}, powers: []int64{10, 3, 3, 2}}
-	for _, ver := range []uint64{10, 11} {
-		for _, sigs := range []string{"cccc", "caca", "ccaa", "cnnn", "cfcc", "cdcc"} {
-			h := hdrSpec{ChainID: "c30", Ver: ver, Height: 5, Vals: A, HdrVals: A, Next: A, Sigs: sigs, AppHash: fill(0xaa)}
-			raw, _ := rawCosmos(h)
-			var hd cosmos.CosmosHeader
-			if err := cosmos.Cdc.UnmarshalBinaryBare(raw, &hd); err != nil {
-				panic(err)
+type ctx struct {
+	r       *ev.Run
+	env     *hsenv.Env
+	base    polyenv.Dump
+	workers int
+	panics  sync.Map
+}
+
+func (c *ctx) notePanic(fam string, x any) {
+	c.r.Class("panic")
+	msg := fmt.Sprint(x)
+	if len(msg) > 90 {
+		msg = msg[:90]
+	}
+	c.panics.Store(fam+": "+msg, true)
+}
+
+// ---------------------------------------------------------------------------------------------------------------
+// reference predicate (the property, nothing else)
+
+// refOK: header `sp` is one the property lets the light client act on when it tracks `cur`:
+// validator set shipped == set named by the header == set committed to by the trusted next-validator hash, and valid
+// precommits for exactly this header (height, block id) from validators holding MORE than 2/3 of the set's power.
+// strictHigher: additionally height > tracked (required for advancing the tracked set).
+func (f *family) refOK(sp hdrSpec, cur tracked, strictHigher bool) (bool, string) {
+	if !cur.ok {
+		return false, "no-genesis"
+	}
+	if strictHigher && sp.Height <= cur.Height {
+		return false, "not-higher-height"
+	}
+	if !strictHigher && sp.Height < cur.Height {
+		return false, "below-tracked-height"
+	}
+	if !f.trusts(cur.NextHash, sp.Vals) {
+		return false, "untrusted-valset"
+	}
+	if sp.HdrVals != sp.Vals {
+		return false, "header-valhash-mismatch"
+	}
+	if sp.BadBlock || sp.CommitDH != 0 {
+		return false, "commit-for-other-block"
+	}
+	if sp.validPower()*3 <= sp.Vals.total()*2 {
+		why := "quorum-not-reached"
+		switch {
+		case strings.ContainsRune(sp.Sigs, sCopy):
+			why += "/duplicate-signature-counted"
+		case strings.ContainsRune(sp.Sigs, sForged):
+			why += "/forged-signature-counted"
+		case strings.ContainsRune(sp.Sigs, sNil):
+			why += "/nil-vote-counted"
+		}
+		return false, why
+	}
+	return true, ""
+}
+
+func (f *family) apply(sp hdrSpec, hash []byte) tracked {
+	return tracked{Height: sp.Height, BlockHash: hash, NextHash: f.hashV(sp.Next, sp.Ver), ChainID: sp.ChainID, ok: true}
+}
+
+func sameTracked(a, b tracked) bool { // chain-id string is not part of the property
+	a.ChainID, b.ChainID = "", ""
+	return a.same(b)
+}
+
+// checkAdvance: implication oracle for one executed transaction that carried the headers `sps` (in order).
+func (c *ctx) checkAdvance(f *family, part string, before, after tracked, sps []hdrSpec, hashes [][]byte, replay func() any) {
+	if after.ok && before.ok && after.Height < before.Height {
+		c.r.Violation(f.name+":tracked-height-decreased", replay())
+	}
+	if sameTracked(before, after) {
+		return
+	}
+	c.r.Class("impl-advanced")
+	allowed := []tracked{before}
+	for i, sp := range sps {
+		n := len(allowed)
+		for _, cur := range allowed[:n] {
+			if ok, _ := f.refOK(sp, cur, true); ok {
+				allowed = append(allowed, f.apply(sp, hashes[i]))
 			}
-			err := cosmos.VerifyCosmosHeader(&hd, &cosmos.CosmosEpochSwitchInfo{Height: 1, NextValidatorsHash: A.hashV(ver), ChainID: "c30"})
-			fmt.Println(ver, sigs, h.validPower(), A.total(), err)
 		}
 	}
+	for _, a := range allowed[1:] {
+		if sameTracked(a, after) {
+			return
+		}
+	}
+	why := "unjustified-state"
+	for i := len(sps) - 1; i >= 0; i-- {
+		if sameTracked(f.apply(sps[i], hashes[i]), after) {
+			_, why = f.refOK(sps[i], before, true)
+			if why == "" {
+				why = "unjustified-after-earlier-header"
+			}
+			break
+		}
+	}
+	c.r.Violation(f.name+":advance:"+why, replay())
+	c.r.Class("VIOLATING-advance")
+	_ = part
+}
+
+// ---------------------------------------------------------------------------------------------------------------
+
+func patterns(alpha string, n int) []string {
+	out := []string{""}
+	for i := 0; i < n; i++ {
+		var nx []string
+		for _, p := range out {
+			for _, a := range alpha {
+				nx = append(nx, p+string(a))
+			}
+		}
+		out = nx
+	}
+	return out
+}
+
+func uniq(ss []string) []string {
+	seen := map[string]bool{}
+	var out []string
+	for _, s := range ss {
+		if !seen[s] {
+			seen[s] = true
+			out = append(out, s)
+		}
+	}
+	return out
+}
+
+// tier alphabet of signature patterns for a set of n validators
+func (c *ctx) sigPatterns(n int) []string {
+	if c.r.Thorough() && n <= 3 {
+		return patterns("acnfd", n)
+	}
+	alphas := []string{"ac", "cn", "cf", "cd"}
+	if c.r.Thorough() {
+		alphas = append(alphas, "acn", "acd", "acf")
+	}
+	var out []string
+	for _, a := range alphas {
+		out = append(out, patterns(a, n)...)
+	}
+	return uniq(out)
+}
+
+func all(k rune, n int) string { return strings.Repeat(string(k), n) }
+
+func main() {
+	r := ev.Start("C30", "model_checking")
+	if p := os.Getenv("C30_PROF"); p != "" {
+		pf, _ := os.Create(p)
+		pprof.StartCPUProfile(pf)
+		defer pprof.StopCPUProfile()
+		time.AfterFunc(60*time.Second, func() { pprof.StopCPUProfile(); pf.Close() })
+	}
+	debug.SetGCPercent(200)
+	debug.SetMemoryLimit(6 << 30)
+	env := hsenv.Setup(0)
+	w := env.NewWorld()
+	fams := families()
+	for _, f := range fams {
+		if err := env.RegisterSideChain(w, f.chain, f.router, f.name, f.ccmc); err != nil {
+			r.HarnessError("%v", err)
+		}
+	}
+	if err := env.RegisterSideChain(w, targetChain, utils.ETH_ROUTER, "target", []byte{9, 9, 9}); err != nil {
+		r.HarnessError("%v", err)
+	}
+	c := &ctx{r: r, env: env, base: w.Dump(), workers: 8}
+	w.Close()
+
+	// classes counted on the reference / attempt side (a mutant must not turn a violation into a vacuity error)
+	r.Require("A:ref-ok", "A:ref-not-ok", "A:boundary-exactly-two-thirds", "B:ref-ok", "B:ref-not-ok", "C:ref-ok", "C:ref-not-ok")
+
+	cov := map[string]any{}
+	kits := map[string]*depKit{"cosmos": cosmosKit(fams[0]), "okex": okexKit(fams[1])}
+	t0 := time.Now()
+	lap := func() float64 { d := time.Since(t0).Seconds(); t0 = time.Now(); return float64(int(d*10)) / 10 }
+	walls := map[string]float64{}
+	cov["partC"] = c.partC(fams, kits)
+	walls["C"] = lap()
+	cov["partA"] = c.partA(fams)
+	c.okexEthKeyProbe(fams[1])
+	walls["A"] = lap()
+	stB := c.partB(fams, kits)
+	cov["partB"] = stB.perFam
+	walls["B"] = lap()
+	r.Note("wall_s_parts", walls)
+
+	var ps []string
+	c.panics.Range(func(k, _ any) bool { ps = append(ps, k.(string)); return true })
+	sort.Strings(ps)
+	r.Note("panics_observed", ps)
+	r.Assume("tendermint v0.33.7 / switcheo v0.34.14 / iavl v0.14.0 / cosmos-sdk v0.39.1 / ics23 v0.6.6 libraries (hashing, sign bytes, store proofs) are correct",
+		"heimdall headers are built with the repo's own port of the tendermint v0.32 types (no other implementation of that wire format exists offline)",
+		"block execution does not verify transaction signatures; witnesses are the listed public keys")
+	cov["rule"] = "tracked (height, next-valset hash, block hash) changes => some submitted header has height > tracked, ships+names the validator set the trusted hash commits to and carries valid precommits for itself from > 2/3 of that set's power (each validator once); tracked height monotone; deposit accepted => header verified likewise (height >= tracked) and the message bytes are a value stored in the state whose root is the header's AppHash"
+	cov["states"] = stB.states
+	cov["transitions"] = stB.transitions
+	cov["traces_validated_against_impl"] = stB.transitions
+	cov["max_depth"] = stB.maxDepth
+	cov["not_covered"] = []string{
+		"heimdall VerifySpan (span proof consumed by the polygon bor router) is not driven: only heimdall SyncGenesisHeader/SyncBlockHeader",
+		"sr25519 and multisig validator keys (registered in the cosmos codec) are not used",
+		"ics23:iavl ops (only ics23:simple trees are hand-built); batch / compressed ics23 proofs",
+		"harmony router is stubbed in this sandbox (no cgo bls)",
+	}
+	r.Finish(cov)
 }
